@@ -214,6 +214,6 @@ int main(int argc, char ** argv)
    if (mode == "ctrleak")     rc = CtrLeakDirected(argc, argv);
    if (mode == "oq")      rc = OqReplay(argc, argv);
    if (mode == "hostile") rc = HostileRun(argc, argv);
-   if (rc >= 0) {fflush(NULL); _exit(rc);}   // no static destructors: the harness deliberately keeps references to pooled nodes (see srv_iso.h)
+   if (rc >= 0) {fflush(NULL); return rc;}
    fprintf(stderr, "usage: srv iso|isorand|oq|hostile|probe ...\n"); return 2;
 }
